@@ -1,5 +1,6 @@
 """Contracts for the navigation helpers of vivarium/core/store.py (C17)."""
 from pyvc.spec import contract, external, model_class, bound_types
+bound_types(s='Ref[Store]')
 from specs.lib_path import *   # noqa: F401,F403
 
 ST = 'vivarium.core.store:'
@@ -31,3 +32,41 @@ contract(ST + 'Store.path_to', props=['C17'],
              'forall_range(0, g_k, lambda i: self.g_abs[i] == to.g_abs[i])']}},
          ghost={'to_path = to.path_for()': {'after': ['g_k = 0']},
                 'to_path = to_path[1:]': {'after': ['g_k = g_k + 1']}})
+
+# ---- C09: structural primitives on the Store heap ------------------------------------------------------------------
+_S.CLASSES['Store'].fields.update({'inner': 'Map[Atom,Ref[Store]]', 'outer': 'Opt[Ref[Store]]'})
+
+external(ST + 'Store._establish_path', types={'path': 'Path', 'config': 'Tree', 'ret': 'Ref[Store]'},
+         modifies=['Store.inner', 'Store.outer', 'Store.value'], alloc=True,
+         why_trusted='schema-driven construction (bounded-checked under C09/C15)')
+external(ST + 'Store._apply_subschema_path', types={'path': 'Path'}, modifies=['Store.inner', 'Store.outer', 'Store.value'],
+         alloc=True, why_trusted='schema-driven construction (bounded-checked under C09/C15)')
+external(ST + 'Store.apply_defaults', types={}, modifies=['Store.value'], why_trusted='bounded-checked under C15')
+external(ST + 'Store.set_value', types={'value': 'Tree'}, modifies=['Store.value', 'Store.inner', 'Store.outer'], alloc=True,
+         why_trusted='bounded-checked under C15')
+external('uuid:uuid1', params=[], types={'ret': 'Val'}, why_trusted='standard library')
+
+contract(ST + 'Store.add', props=['C09'],
+         types={'added': 'Rec{key:Atom,state:Tree}', 'key': 'Atom', 'path': 'Path',
+                'added_state': 'Tree', 'target': 'Ref[Store]'},
+         modifies=['Store.inner', 'Store.outer', 'Store.value'], alloc=True,
+         raises={'when': "has(self.inner, added['key'])"},          # adding an existing key is rejected -- and only then
+         abstract=["path = (str(uuid.uuid1()),)"],
+         note="everything after the rejection test is schema-driven construction (trusted externals)")
+
+external(ST + 'Store.get_path', types={'path': 'Path', 'ret': 'Ref[Store]'}, ensures=['allocated(ret)'],
+         why_trusted='Store navigation: bounded-checked by the C17 driver')
+external(ST + 'Store.recursive_end_process', types={'value': 'Ref[Store]'}, modifies=['Process.g_pending'],
+         why_trusted='ends parallel processes below the deleted node (C13)')
+
+contract(ST + 'Store._delete_path', props=['C09'],
+         types={'path': 'Path', 'target': 'Ref[Store]', 'remove': 'Atom', 'lost': 'Ref[Store]', 'ret': 'Opt[Ref[Store]]'},
+         requires=['len(path) >= 1'],
+         modifies=['Store.inner', 'Process.g_pending'],
+         ensures=[
+             # exactly one node loses exactly one child (the named one); every other node keeps all its children
+             'forall(lambda s: implies(is_none(ret), s.inner == old(s.inner)))',
+             'implies(not is_none(ret), exists(lambda s: s.inner == map_remove(old(s.inner), path[len(path) - 1]) and '
+             'has(old(s.inner), path[len(path) - 1]) and lookup(old(s.inner), path[len(path) - 1]) == some(ret) and '
+             "unchanged_except('Store', s, 'inner')))"],
+         note='the empty-path case (clearing the node itself) is excluded by the precondition: structural updates always name a child')
